@@ -63,6 +63,9 @@ AREA['driver2'] = AREA['driver2'] + ['C04']
 AREA['hdr2'] = AREA['hdr2'] + ['C04']
 AREA.update({'cli3': AREA['cli'], 'driver3': AREA['driver2'], 'pipe3': AREA['pipeline'] + ['C12'], 'hash3': AREA['hash2'] + ['C04', 'C06'],
              'aes3': AREA['aes2']})
+for _n in ('4', '5'):
+    AREA.update({'cli' + _n: AREA['cli'] + ['C13'], 'driver' + _n: AREA['driver2'], 'pipe' + _n: AREA['pipeline'] + ['C12', 'C02'],
+                 'hash' + _n: AREA['hash2'] + ['C04', 'C06', 'C02'], 'aes' + _n: AREA['aes2'] + ['C16', 'C17', 'C01', 'C18', 'C06']})
 # refactorings the present analysis cannot follow (the check answers ANALYSIS-BROKEN, exit 2, not a violation): kept out of the replay
 SKIP = set()
 for d in sorted(glob.glob('equiv/*/patch.diff')):
